@@ -23,6 +23,21 @@ Check frames_within_limit :
     Forall (fun fr => 19 <= blen fr /\ blen fr <= max_len c) frames.
 Print Assumptions frames_within_limit.
 
+(* (2) The header of every emitted frame is consistent: all-ones marker, a length field equal
+   to the length of the frame, the type of the message.  (The inner lengths -- withdrawn
+   routes, total path attributes, each attribute TLV, MP_REACH / MP_UNREACH, OPEN optional
+   parameters and capabilities -- are what the reader needs to succeed in (3)-(8).) *)
+Theorem frame_lengths_consistent :
+  forall (p : profile) (c : codec) (m : msg) (frames : list (list N)),
+    encode_to p c m = Ok frames ->
+    Forall (fun fr => exists body, read_frame (max_len c) fr = Some (msg_type m, body)) frames.
+Proof. exact C04_frame_lengths_consistent. Qed.
+Check frame_lengths_consistent :
+  forall (p : profile) (c : codec) (m : msg) (frames : list (list N)),
+    encode_to p c m = Ok frames ->
+    Forall (fun fr => exists body, read_frame (max_len c) fr = Some (msg_type m, body)) frames.
+Print Assumptions frame_lengths_consistent.
+
 (* (3) A Reach of plain prefixes (IPv4 / IPv6 unicast and multicast NLRI), with any
    attribute list, on any session: the frames split the entry list into consecutive
    chunks (nothing dropped, duplicated or reordered), and from every frame the
@@ -128,3 +143,76 @@ Check open_roundtrip :
     asn < 4294967296 -> hold < 65536 -> rid < 4294967296 -> Forall cap_wf caps ->
     exists fr, frames = [fr] /\ open_ok (max_len c) asn hold rid caps fr.
 Print Assumptions open_roundtrip.
+
+(* (8) An End-of-RIB is one UPDATE with consistent inner lengths that carries nothing (IPv4) or
+   exactly an empty MP_UNREACH_NLRI of its family (RFC 4724 2). *)
+Theorem eor_frame :
+  forall (p : profile) (c : codec) (f : N) (frames : list (list N)),
+    encode_to p c (MEor f) = Ok frames -> fam_ok f ->
+    exists fr body u,
+      frames = [fr] /\ read_frame (max_len c) fr = Some (2, body) /\ read_update body = Some u /\
+      u_withdrawn u = [] /\ u_nlri u = [] /\
+      (if f =? F_IPV4 then u_attrs u = []
+       else exists t, u_attrs u = [t] /\ is_code 15 t = true /\ read_mp_unreach (snd t) = Some (f, [])).
+Proof. exact C04_eor_frame. Qed.
+Check eor_frame :
+  forall (p : profile) (c : codec) (f : N) (frames : list (list N)),
+    encode_to p c (MEor f) = Ok frames -> fam_ok f ->
+    exists fr body u,
+      frames = [fr] /\ read_frame (max_len c) fr = Some (2, body) /\ read_update body = Some u /\
+      u_withdrawn u = [] /\ u_nlri u = [] /\
+      (if f =? F_IPV4 then u_attrs u = []
+       else exists t, u_attrs u = [t] /\ is_code 15 t = true /\ read_mp_unreach (snd t) = Some (f, [])).
+Print Assumptions eor_frame.
+
+(* (9) "Decoding with the peer's negotiated codec": the codec negotiated from the same two
+   capability lists in the opposite order has the same maximum message size, the same AS
+   number width, the same families and RFC 8950 switch, and expects path identifiers exactly
+   for the families for which this side sends them -- the parameters the reader is given in
+   (3)-(8) are the peer's. *)
+Theorem peer_codec_agrees :
+  forall (l r : list cap) (f : N),
+    max_len (negotiate l r) = max_len (negotiate r l) /\
+    two_byte (negotiate l r) = two_byte (negotiate r l) /\
+    negotiated (negotiate l r) f = negotiated (negotiate r l) f /\
+    addpath_for (negotiate l r) f = addpath_rx_for (negotiate r l) f /\
+    ext_nh (negotiate l r) = ext_nh (negotiate r l).
+Proof. exact C04_peer_codec_agrees. Qed.
+Check peer_codec_agrees :
+  forall (l r : list cap) (f : N),
+    max_len (negotiate l r) = max_len (negotiate r l) /\
+    two_byte (negotiate l r) = two_byte (negotiate r l) /\
+    negotiated (negotiate l r) f = negotiated (negotiate r l) f /\
+    addpath_for (negotiate l r) f = addpath_rx_for (negotiate r l) f /\
+    ext_nh (negotiate l r) = ext_nh (negotiate r l).
+Print Assumptions peer_codec_agrees.
+
+(* (10) The documented canonicalisation on a two-octet-AS session (RFC 6793): what is written for
+   an AS_PATH is the down-converted path plus, only when an AS number needs four octets, an
+   AS4_PATH with the non-confederation segments; the RFC 6793 4.2.3 reconstruction returns that
+   AS4_PATH, which is the original path when it has no confederation segment; without wide AS
+   numbers the down-converted path is the original. *)
+Theorem as4_path_roundtrip :
+  forall (a : attr) (b : list N) (w : list attr),
+    a_code a = 2 -> a_binary a = Some b -> attrs_2byte a = Ok w ->
+    exists segs,
+      segs_of b = Ok segs /\
+      (existsb seg_wide segs = false ->
+         w = [mk_bin 2 (flat_map enc_seg2 segs)] /\ map seg_down segs = segs) /\
+      (existsb seg_wide segs = true ->
+         w = [mk_bin 2 (flat_map enc_seg2 segs); mk_bin 17 (flat_map enc_seg4 (filter not_confed segs))] /\
+         as4_reconcile (map seg_down segs) (filter not_confed segs) = filter not_confed segs /\
+         (forallb not_confed segs = true -> as4_reconcile (map seg_down segs) (filter not_confed segs) = segs)).
+Proof. exact C04_as4_path_roundtrip. Qed.
+Check as4_path_roundtrip :
+  forall (a : attr) (b : list N) (w : list attr),
+    a_code a = 2 -> a_binary a = Some b -> attrs_2byte a = Ok w ->
+    exists segs,
+      segs_of b = Ok segs /\
+      (existsb seg_wide segs = false ->
+         w = [mk_bin 2 (flat_map enc_seg2 segs)] /\ map seg_down segs = segs) /\
+      (existsb seg_wide segs = true ->
+         w = [mk_bin 2 (flat_map enc_seg2 segs); mk_bin 17 (flat_map enc_seg4 (filter not_confed segs))] /\
+         as4_reconcile (map seg_down segs) (filter not_confed segs) = filter not_confed segs /\
+         (forallb not_confed segs = true -> as4_reconcile (map seg_down segs) (filter not_confed segs) = segs)).
+Print Assumptions as4_path_roundtrip.
